@@ -77,7 +77,7 @@ def run(c):
     if q:
         designs = [(["a", "b", "c"], 2, 1, 2), (["a", "b"], 1, 2, 2)]
     else:
-        designs = [(["a", "b", "c"], 2, 2, 2), (["a", "b", "c"], 1, 2, 3), (["a", "b", "c", "d"], 2, 2, 2)]
+        designs = [(["a", "b", "c"], 2, 2, 2), (["a", "b", "c"], 1, 2, 3), (["a", "b", "c", "d"], 2, 1, 2)]
     for d in designs:
         c.tlc_must_pass(SPEC, "PQMC", cfg_text=mc_cfg(*d), timeout=1500, coverage=(d == designs[0]),
                         vacuous_ok=("RecCleanup", "RecPut", "CleanupMissing"),
@@ -209,7 +209,7 @@ def run(c):
                     nid += 1
                     batch.append(dict(s, id="r%d" % nid, dies=nd))
         # budgets (measured: ~60 runs/s): deeper levels are seeded samples of the full enumeration
-        limit = {1: (None, None), 2: (1500, 20000), 3: (0, 5000)}[lv][0 if q else 1]
+        limit = {1: (None, None), 2: (1500, 10000), 3: (0, 3000)}[lv][0 if q else 1]
         if limit is not None and len(batch) > limit:
             c.rng.shuffle(batch)
             batch = batch[:limit]
